@@ -77,6 +77,22 @@ Definition svr_kkt (K : list (list Q)) (y : list Q) (c p : Q) (b : list Q) (rho 
 Definition svr_ok (K : list (list Q)) (y : list Q) (c p : Q) (b : list Q) (rho e eeq : Q) : bool :=
   svr_feasible c b eeq && svr_kkt K y c p b rho e.
 
+(** nu-SVC (published a_i = y_i alpha_i / r, rho / r; cb = 1/r as the implementation computes it, rq = r,
+    total = nu n): the C-SVC conditions with both box bounds cb, and the second equality constraint
+    | r sum |a_i| - nu n | <= enu *)
+Definition nusvc_nu (total rq : Q) (a : list Q) (enu : Q) : bool :=
+  Qleb (Qabs' (Qsub' (Qsum' (map Qabs' a) * rq) total)) enu.
+Definition nusvc_ok (K : list (list Q)) (y : list bool) (cb total rq : Q) (a : list Q) (rho e eeq enu : Q) : bool :=
+  svc_feasible y cb cb a eeq && nusvc_nu total rq a enu && svc_kkt K y cb cb a rho e.
+
+(** nu-SVR (published b_i, the tube width p = -r, total = c nu n): the epsilon-SVR conditions with loss epsilon p,
+    p >= -e, sum |b_i| <= total + enu, and complementarity: p <= e or sum |b_i| >= total - enu *)
+Definition nusvr_nu (total p : Q) (b : list Q) (e enu : Q) : bool :=
+  let l1 := Qsum' (map Qabs' b) in
+  Qleb (- e) p && Qleb l1 (total + enu) && (Qleb p e || Qleb (total - enu) l1).
+Definition nusvr_ok (K : list (list Q)) (y : list Q) (c total p : Q) (b : list Q) (rho e eeq enu : Q) : bool :=
+  svr_feasible c b eeq && nusvr_nu total p b e enu && svr_kkt K y c p b rho e.
+
 (** one-class: 0 <= a_i <= 1, |sum a_i - total| <= eeq ;  a_i < 1 -> f_i >= -e ; a_i > 0 -> f_i <= e *)
 Definition oc_kkt1 (e : Q) (a f : Q) : bool :=
   (negb (Qltb a 1) || Qleb (- e) f) && (negb (Qltb 0 a) || Qleb f e).
